@@ -36,7 +36,7 @@ pub fn run(ctx: &mut Ctx) {
     for (n, ok) in r9::selftest(false) {
         ctx.selftest(&n, ok);
     }
-    ctx.require(&["ha=q(N-1)+r", "ha_r=0", "ha_r=N-2", "ha_top_limb_ones", "ha_all_ff", "ha_random", "ha_64_bytes", "ha_small", "h1", "h2", "extract_sign", "extract_enc", "extract_exch", "extract_fails_when_t1=0", "extract_ok_next_to_failure", "annex_keys", "id_empty", "id_long", "h1_same_id_all_hids"]);
+    ctx.require(&["ha=q(N-1)+r", "ha_r=0", "ha_r=N-2", "ha_top_limb_ones", "ha_all_ff", "ha_random", "ha_64_bytes", "ha_small", "h1", "h2", "extract_sign", "extract_enc", "extract_exch", "extract_fails_when_t1=0", "extract_ok_next_to_failure", "annex_keys", "id_empty", "id_long", "h1_same_id_all_hids", "ha_r_limb_ladder", "t1_limb_ladder"]);
     let pr = r9::params();
     let nm1 = &pr.n - 1u32;
     let two320: BigUint = BigUint::one() << 320;
@@ -63,6 +63,28 @@ pub fn run(ctx: &mut Ctx) {
             }
             ctx.class("ha=q(N-1)+r");
             reduce_case(ctx, &ha_bytes(&v), &format!("ha_r={}", rn));
+        }
+    }
+    // --- r in every limb-wise comparison pattern against N-1 (upper limbs equal to those of the modulus)
+    {
+        let mut pl = ctx.prng("ladder_r");
+        let reps = ctx.n(2, 40);
+        for rep in 0..reps {
+            for (pat, r) in ladder_values(&nm1, &mut pl) {
+                idx += 1;
+                let qsub = pl.next();
+                if !ctx.mine(idx) || r >= nm1 {
+                    continue;
+                }
+                let q = if rep == 0 { BigUint::zero() } else { BigUint::from(qsub) % (&qmax) };
+                let v = &q * &nm1 + &r;
+                if v >= two320 {
+                    continue;
+                }
+                ctx.class("ha_r_limb_ladder");
+                ctx.class(&format!("ha_r_ladder:{}", pat));
+                reduce_case(ctx, &ha_bytes(&v), "ha_r_limb_ladder");
+            }
         }
     }
     // --- structured: top limb ones, all ff, small, random; 64-byte inputs of which only 40 count
@@ -187,6 +209,33 @@ pub fn run(ctx: &mut Ctx) {
         let kx = r9::hexn("0002E65B0762D042F51F0D23542B13ED8CFA2E9A0E7206361E013A283905E31F");
         extract_case(ctx, &kx, b"Alice", 2, "annex");
         extract_case(ctx, &kx, b"Bob", 2, "annex");
+    }
+    // --- master key crafted so that the 256-bit sum H1 + k (before reduction) stands in every limb-wise comparison
+    // pattern against N: equal upper limbs, then below / above in the lower ones
+    {
+        let mut pl = ctx.prng("ladder_t1");
+        let reps = ctx.n(1, 12);
+        let mut li = 0u64;
+        for _ in 0..reps {
+            let idl = pl.range(1, 20);
+            let id = pl.bytes(idl);
+            for (pat, s) in ladder_values(&pr.n, &mut pl) {
+                li += 1;
+                if !ctx.mine(li) {
+                    continue;
+                }
+                let hid = [1u8, 3, 2][(li % 3) as usize];
+                let h = r9::h1(&id, hid);
+                // k = s - H1 must be a legal master key in [1, N-1]
+                if s <= h || &s - &h >= pr.n {
+                    continue;
+                }
+                let k = &s - &h;
+                ctx.class("t1_limb_ladder");
+                ctx.class(&format!("t1_ladder:{}", pat));
+                extract_case(ctx, &k, &id, hid, "t1_limb_ladder");
+            }
+        }
     }
     let n = ctx.n(300, 10_000);
     let mut prng = ctx.prng("extract");
